@@ -1,0 +1,26 @@
+//go:build verif
+
+package ratelimiter
+
+// Contracts for properties C13 / C09 (RateLimiter filter): an accepted spec never divides by a zero period.
+
+/*@
+// what Spec.Validate guarantees about a policy (format=duration is checked by the schema validation)
+// format=duration (schema) makes a non-empty period parsable; Validate makes a parsable period positive
+pred policyOK(p *Policy) := p != nil && (p.LimitRefreshPeriod == "" || (durOK(p.LimitRefreshPeriod) && durOf(p.LimitRefreshPeriod) > 0)) && p.LimitForPeriod >= 0
+pred namedBy(spec *Spec, u *URLRule) := u.URLRule.PolicyRef != "" ? u.URLRule.PolicyRef : spec.DefaultPolicyRef
+
+func (spec Spec) Validate() (err error)
+  requires forall k int :: 0 <= k && k < len(spec.Policies) ==> spec.Policies[k] != nil
+  requires forall k int :: 0 <= k && k < len(spec.URLs) ==> spec.URLs[k] != nil
+  ensures accepted-periods-are-positive: err == nil ==> (forall k int :: 0 <= k && k < len(spec.Policies) ==> !durOK(spec.Policies[k].LimitRefreshPeriod) || durOf(spec.Policies[k].LimitRefreshPeriod) > 0)
+  invariant[1] forall k int :: 0 <= k && k < idx$1 ==> !durOK(spec.Policies[k].LimitRefreshPeriod) || durOf(spec.Policies[k].LimitRefreshPeriod) > 0
+  invariant[2] forall k int :: 0 <= k && k < len(spec.Policies) ==> !durOK(spec.Policies[k].LimitRefreshPeriod) || durOf(spec.Policies[k].LimitRefreshPeriod) > 0
+  invariant[3] (forall k int :: 0 <= k && k < len(spec.Policies) ==> !durOK(spec.Policies[k].LimitRefreshPeriod) || durOf(spec.Policies[k].LimitRefreshPeriod) > 0) && u != nil
+
+func (url *URLRule) createRateLimiter()
+  flag allocates
+  requires url != nil && policyOK(url.policy)
+  modifies url.rl, allof("ghost:github.com/megaease/easegress/pkg/util/ratelimiter.clock")
+  ensures url.rl != nil
+@*/
